@@ -31,7 +31,7 @@ def table_codes():
 
 
 def plan(tier, seed):
-    k = 20 if tier == "quick" else 500
+    k = 32 if tier == "quick" else 500
     shards = []
     for kind in ("model", "twin", "missing", "folder"):
         shards += [{"kind": kind, "seed": seed, "shard": i, "n": 120} for i in range(k)]
